@@ -177,57 +177,89 @@ use plonky2::plonk::proof::{OpeningSet, Proof, ProofWithPublicInputs};
 
 pub type C = PoseidonGoldilocksConfig;
 
-/// `tag nparams p1 … pn` — see lean/P2/Drv/ParseGates.lean
-pub fn dump_gate(g: &GateRef<F, 2>) -> Vec<u64> {
+fn id_number(id: &str, key: &str) -> Option<u64> {
+    let at = id.find(key)? + key.len();
+    let digits: String = id[at..].chars().skip_while(|c| *c == ' ').take_while(|c| c.is_ascii_digit()).collect();
+    digits.parse().ok()
+}
+
+/// Flat descriptor of any built-in gate (any gate that can appear in `CommonCircuitData.gates`).
+/// Panics on a gate type it does not know.
+pub fn dump_gate(g: &plonky2::gates::gate::GateRef<F, 2>) -> Vec<u64> {
+    use plonky2::gates::arithmetic_base::ArithmeticGate;
+    use plonky2::gates::arithmetic_extension::ArithmeticExtensionGate;
+    use plonky2::gates::constant::ConstantGate;
+    use plonky2::gates::coset_interpolation::CosetInterpolationGate;
+    use plonky2::gates::exponentiation::ExponentiationGate;
+    use plonky2::gates::lookup::LookupGate;
+    use plonky2::gates::lookup_table::LookupTableGate;
+    use plonky2::gates::multiplication_extension::MulExtensionGate;
+    use plonky2::gates::noop::NoopGate;
+    use plonky2::gates::poseidon::PoseidonGate;
+    use plonky2::gates::poseidon_mds::PoseidonMdsGate;
+    use plonky2::gates::public_input::PublicInputGate;
+    use plonky2::gates::random_access::RandomAccessGate;
+    use plonky2::gates::reducing::ReducingGate;
+    use plonky2::gates::reducing_extension::ReducingExtensionGate;
+
+    let any = g.0.as_any();
     let id = g.0.id();
-    let field = |name: &str| -> u64 {
-        let k = format!("{name}: ");
-        let s = &id[id.find(&k).unwrap_or_else(|| panic!("gate id {id} lacks {name}")) + k.len()..];
-        s.chars().take_while(|c| c.is_ascii_digit()).collect::<String>().parse().unwrap()
-    };
-    let (tag, params): (u64, Vec<u64>) = if id.starts_with("ArithmeticGate") {
-        (0, vec![field("num_ops")])
-    } else if id.starts_with("ArithmeticExtensionGate") {
-        (1, vec![field("num_ops")])
-    } else if id.starts_with("MulExtensionGate") {
-        (2, vec![field("num_ops")])
-    } else if id.starts_with("BaseSumGate") {
-        let b: u64 = id[id.find("Base: ").expect("BaseSumGate id") + 6..].trim().parse().unwrap();
-        (3, vec![b, field("num_limbs")])
-    } else if id.starts_with("ConstantGate") {
-        (4, vec![field("num_consts")])
-    } else if id.starts_with("CosetInterpolationGate") {
-        let ws = &id[id.find("barycentric_weights: [").unwrap() + 22..];
-        let ws = &ws[..ws.find(']').unwrap()];
-        let mut p = vec![field("subgroup_bits"), field("degree")];
-        p.extend(ws.split(',').filter(|s| !s.trim().is_empty()).map(|s| s.trim().parse::<u64>().unwrap()));
-        (5, p)
-    } else if id.starts_with("ExponentiationGate") {
-        (6, vec![field("num_power_bits")])
-    } else if id.starts_with("LookupGate") {
-        (7, vec![field("num_slots")])
-    } else if id.starts_with("LookupTableGate") {
-        (8, vec![field("num_slots")])
-    } else if id.starts_with("NoopGate") {
-        (9, vec![])
-    } else if id.starts_with("PoseidonGate") {
-        (10, vec![])
-    } else if id.starts_with("PoseidonMdsGate") {
-        (11, vec![])
-    } else if id.starts_with("PublicInputGate") {
-        (12, vec![])
-    } else if id.starts_with("RandomAccessGate") {
-        (13, vec![field("bits"), field("num_copies"), field("num_extra_constants")])
-    } else if id.starts_with("ReducingGate") {
-        (14, vec![field("num_coeffs")])
-    } else if id.starts_with("ReducingExtensionGate") {
-        (15, vec![field("num_coeffs")])
-    } else {
-        panic!("dump_gate: unknown gate {id}")
-    };
-    let mut out = vec![tag, params.len() as u64];
-    out.extend(params);
-    out
+    if let Some(x) = any.downcast_ref::<ArithmeticGate>() {
+        return vec![0, 1, x.num_ops as u64];
+    }
+    if let Some(x) = any.downcast_ref::<ArithmeticExtensionGate<2>>() {
+        return vec![1, 1, x.num_ops as u64];
+    }
+    if let Some(x) = any.downcast_ref::<MulExtensionGate<2>>() {
+        return vec![2, 1, x.num_ops as u64];
+    }
+    if id.starts_with("BaseSumGate") {
+        // `BaseSumGate<B>` is generic in the base: read both parameters off the id
+        // (`BaseSumGate { num_limbs: N } + Base: B`).
+        let limbs = id_number(&id, "num_limbs:").expect("BaseSumGate id: num_limbs");
+        let base = id_number(&id, "Base:").expect("BaseSumGate id: base");
+        return vec![3, 2, base, limbs];
+    }
+    if any.downcast_ref::<ConstantGate>().is_some() {
+        // the field is crate-private; `num_constants()` returns it
+        return vec![4, 1, g.0.num_constants() as u64];
+    }
+    if let Some(x) = any.downcast_ref::<CosetInterpolationGate<F, 2>>() {
+        let mut v = vec![5, 2 + x.barycentric_weights.len() as u64, x.subgroup_bits as u64, x.degree as u64];
+        v.extend(x.barycentric_weights.iter().map(|w| w.to_canonical_u64()));
+        return v;
+    }
+    if let Some(x) = any.downcast_ref::<ExponentiationGate<F, 2>>() {
+        return vec![6, 1, x.num_power_bits as u64];
+    }
+    if let Some(x) = any.downcast_ref::<LookupGate>() {
+        return vec![7, 1, x.num_slots as u64];
+    }
+    if let Some(x) = any.downcast_ref::<LookupTableGate>() {
+        return vec![8, 1, x.num_slots as u64];
+    }
+    if any.downcast_ref::<NoopGate>().is_some() {
+        return vec![9, 0];
+    }
+    if any.downcast_ref::<PoseidonGate<F, 2>>().is_some() {
+        return vec![10, 0];
+    }
+    if any.downcast_ref::<PoseidonMdsGate<F, 2>>().is_some() {
+        return vec![11, 0];
+    }
+    if any.downcast_ref::<PublicInputGate>().is_some() {
+        return vec![12, 0];
+    }
+    if let Some(x) = any.downcast_ref::<RandomAccessGate<F, 2>>() {
+        return vec![13, 3, x.bits as u64, x.num_copies as u64, x.num_extra_constants as u64];
+    }
+    if let Some(x) = any.downcast_ref::<ReducingGate<2>>() {
+        return vec![14, 1, x.num_coeffs as u64];
+    }
+    if let Some(x) = any.downcast_ref::<ReducingExtensionGate<2>>() {
+        return vec![15, 1, x.num_coeffs as u64];
+    }
+    panic!("dump_gate: unknown gate type {id}");
 }
 
 impl Toks {
